@@ -1,6 +1,7 @@
 SPECIFICATION Spec
 CONSTANT Size = 1
 CONSTANT Dedup = TRUE
+CONSTANT Overlap = TRUE
 INVARIANT ExpansionIsSpec
 INVARIANT PhfCompiles
 INVARIANT NeverDisabled
